@@ -205,6 +205,66 @@ static enum MHD_Result kv_iter (void *cls, enum MHD_ValueKind kind, const char *
   return MHD_YES;
 }
 
+/* look-up probes: for every distinct name seen by the iteration the keys {name, name in the other case, name without
+   its last byte, name + "x"} are looked up with MHD_lookup_connection_value_n for each kind; one entry
+   "<kind>:<keyhex>>" + ("-" not found | "~" found, NULL value | "=<valuehex>" found) per look-up.  "!z" is appended
+   when MHD_lookup_connection_value (the strlen variant) disagrees with the _n variant. */
+#define LK_MAXN 40
+struct lkacc { int n; const char *name[LK_MAXN]; size_t len[LK_MAXN]; };
+static enum MHD_Result lk_iter (void *cls, enum MHD_ValueKind kind, const char *key, size_t key_size,
+                                const char *value, size_t value_size)
+{
+  struct lkacc *a = (struct lkacc *) cls; int i;
+  (void) kind; (void) value; (void) value_size;
+  if (NULL == key) return MHD_YES;
+  for (i = 0; i < a->n; i++) if (a->len[i] == key_size && 0 == memcmp (a->name[i], key, key_size)) return MHD_YES;
+  if (a->n < LK_MAXN) { a->name[a->n] = key; a->len[a->n] = key_size; a->n++; }
+  return MHD_YES;
+}
+static void lk_probe (struct MHD_Connection *mc, const char *key, size_t klen, int *first)
+{
+  static const int kinds[3] = { MHD_HEADER_KIND, MHD_COOKIE_KIND, MHD_GET_ARGUMENT_KIND };
+  int k;
+  char *kz = (char *) malloc (klen + 1);   /* exact size: ASan sees over-reads of the key */
+  memcpy (kz, key, klen); kz[klen] = 0;
+  for (k = 0; k < 3; k++)
+  {
+    const char *val = NULL; size_t vlen = 0;
+    enum MHD_Result r = MHD_lookup_connection_value_n (mc, (enum MHD_ValueKind) kinds[k], kz, klen, &val, &vlen);
+    if (!*first) putchar (','); *first = 0;
+    printf ("%d:", kinds[k]); puthexs (kz, klen); putchar ('>');
+    if (MHD_NO == r) putchar ('-');
+    else if (NULL == val) putchar ('~');
+    else { putchar ('='); if (vlen) lp_puthex (stdout, val, vlen); }
+    if (NULL == memchr (kz, 0, klen))
+    {
+      const char *z = MHD_lookup_connection_value (mc, (enum MHD_ValueKind) kinds[k], kz);
+      if (z != ((MHD_NO == r) ? NULL : val)) printf ("!z");
+    }
+  }
+  free (kz);
+}
+static void lk_all (struct MHD_Connection *mc)
+{
+  struct lkacc a; int i, first = 1; size_t j;
+  a.n = 0;
+  MHD_get_connection_values_n (mc, (enum MHD_ValueKind) (MHD_HEADER_KIND | MHD_COOKIE_KIND | MHD_GET_ARGUMENT_KIND), &lk_iter, &a);
+  for (i = 0; i < a.n; i++)
+  {
+    size_t n = a.len[i];
+    char *t = (char *) malloc (n + 2);
+    memcpy (t, a.name[i], n);
+    lk_probe (mc, t, n, &first);                                   /* exact */
+    for (j = 0; j < n; j++)                                        /* other case */
+      if (t[j] >= 'a' && t[j] <= 'z') t[j] = (char) (t[j] - 32); else if (t[j] >= 'A' && t[j] <= 'Z') t[j] = (char) (t[j] + 32);
+    lk_probe (mc, t, n, &first);
+    memcpy (t, a.name[i], n);
+    if (n > 0) lk_probe (mc, t, n - 1, &first);                    /* proper prefix */
+    t[n] = 'x'; lk_probe (mc, t, n + 1, &first);                   /* extension */
+    free (t);
+  }
+}
+
 struct snapacc { struct req *rq; };
 static void add_snap (struct req *rq, const char *p, size_t len)
 {
@@ -345,6 +405,7 @@ static enum MHD_Result handler (void *cls, struct MHD_Connection *mc, const char
     putchar (']');
     ci = MHD_get_connection_info (mc, MHD_CONNECTION_INFO_REQUEST_HEADER_SIZE);
     printf (" hdrsize=%zu", ci ? ci->header_size : (size_t) 0);
+    printf (" lk=["); lk_all (mc); putchar (']');
   }
   else if (!strcmp (phase, "final"))
   { /* trailers become visible at the final call */
